@@ -262,9 +262,10 @@ def run_case(case: dict) -> CaseResult:
                     s.transport.write_fail = ("raise", ConnectionResetError(104, "Connection reset by peer"))
                 env.spawn(f"appdisc{i}", cli.disconnect(force=(how != "local")))
 
-    for i, ev in enumerate(case["events"]):
-        env.loop.sim_at(ev["t"] / 64, do_event, ev, i)
     horizon = float(case.get("horizon", 300))
+    for i, ev in enumerate(case["events"]):
+        if ev["t"] / 64 < horizon - 1.0:  # (the history ends with the harness's own final stop(): nothing is scripted after it)
+            env.loop.sim_at(ev["t"] / 64, do_event, ev, i)
 
     async def finale():
         env.log("finale")
